@@ -25,7 +25,7 @@ pub enum Op {
     Fetch(Val),
 }
 
-fn alphabet() -> Vec<Op> {
+pub fn alphabet() -> Vec<Op> {
     let vals = [
         Val { key: 0, tag: 0 },
         Val { key: 0, tag: 1 },
@@ -46,7 +46,7 @@ fn hist_str(h: &[Op]) -> String {
         .join(",")
 }
 
-fn run_hist(h: &[Op]) -> Step {
+pub fn run_hist(h: &[Op]) -> Step {
     let mut viols: Vec<Viol> = vec![];
     let mut outcomes = vec![];
     let res = guarded(|| {
@@ -139,19 +139,62 @@ pub fn run(tier: Tier) -> Run {
     let d_clos = tier.pick(7, 9);
     let a = xs::enumerate(&alpha, d_enum, &run_hist);
     let b = xs::closure(&alpha, d_clos, 5_000_000, &run_hist);
+    // ---- non-initial states: storages already holding k distinct values (k up to K), then every 2-step continuation
+    //      over fetches / appends of each stored value and the base alphabet (size- or position-dependent shortcuts)
+    let kmax = tier.pick(17, 40);
+    let big: Vec<(u64, Vec<crate::report::Viol>)> = {
+        use rayon::prelude::*;
+        (0..=kmax)
+            .into_par_iter()
+            .map(|k| {
+                let prefix: Vec<Op> = (0..k).map(|i| Op::Append(Val { key: 10 + i as u8, tag: 0 })).collect();
+                let mut ext = alphabet();
+                for i in 0..k {
+                    ext.push(Op::Fetch(Val { key: 10 + i as u8, tag: 1 }));
+                    ext.push(Op::Append(Val { key: 10 + i as u8, tag: 2 }));
+                }
+                let mut n = 0u64;
+                let mut vs = vec![];
+                for o1 in &ext {
+                    for o2 in &ext {
+                        let mut h = prefix.clone();
+                        h.push(*o1);
+                        h.push(*o2);
+                        n += 1;
+                        let st = run_hist(&h);
+                        for v in st.viols {
+                            if vs.len() < 3 {
+                                vs.push(v);
+                            }
+                        }
+                    }
+                }
+                (n, vs)
+            })
+            .collect()
+    };
+    let mut big_n = 0u64;
+    for (n, vs) in big {
+        big_n += n;
+        run.add_all(vs);
+    }
+    run.outcome("continuations_from_prefilled_storages", big_n);
     run.add_all(a.viols.clone());
     run.add_all(b.viols.clone());
     run.merge_outcomes(&a.outcomes);
     run.merge_outcomes(&b.outcomes);
     run.set("states", json!(b.states.max(a.states)));
-    run.set("transitions", json!(a.transitions + b.transitions));
-    run.set("traces_validated_against_impl", json!(a.histories_replayed + b.histories_replayed));
+    run.set("transitions", json!(a.transitions + b.transitions + big_n));
+    run.set("traces_validated_against_impl", json!(a.histories_replayed + b.histories_replayed + big_n));
     run.set("max_depth", json!(b.max_depth.max(a.max_depth)));
     run.set("bounds", json!({"alphabet": alpha.len(), "full_enumeration_depth": d_enum, "closure_depth": d_clos,
-        "values": "5 values: two equal-by-key with different tags, two distinct, one unequal to itself"}));
+        "values": "5 values: two equal-by-key with different tags, two distinct, one unequal to itself", "prefilled_storages": format!("k = 0..{} distinct values, then every 2-step continuation over the base alphabet + fetch/append of each stored value", kmax)}));
     run.set("bound_completed", json!({"enumeration_depth": a.depth_completed, "closure_depth": if b.depth_completed == usize::MAX { d_clos } else { b.depth_completed }}));
     run.set("enumeration", json!({"states": a.states, "transitions": a.transitions}));
     run.set("closure", json!({"states": b.states, "transitions": b.transitions, "per_depth_states": b.per_depth_states}));
+    if tier == Tier::Thorough {
+        crate::report::second_engine(&mut run, "C19", 6);
+    }
     run.set("caps_hit", json!(b.caps_hit));
     run.set("exhaustive", json!(b.caps_hit.is_empty()));
     run.set("samples", json!(a.sample_histories.iter().chain(b.sample_histories.iter()).collect::<Vec<_>>()));
